@@ -1669,7 +1669,7 @@ def check_C01(ctx):
     if ctx.harness:
         late_check(ctx, False, sigs)
         wg_check(ctx, sigs)
-        opt_check(ctx, {"waitgroup"})
+        opt_check(ctx, {"waitgroup", "earlyrefresh"})   # + the last running bar draws itself out without the ticker
 
 
 
